@@ -56,6 +56,7 @@ def run_fill(ctx):
     class _E:
         block = lp[0]
     src = None
+    item = None
     for bi in sorted(lp[1]):
         t = b.blocks[bi].term
         if t.kind == "call" and t.callee.path == "std::iter::Iterator::next" and g.loop_of(bi)[0] == lp[0]:
@@ -89,7 +90,7 @@ def run_fill(ctx):
         good = good and xl is not None and xl[0] != lp[0] and b.dominates(xl[0], hbi) and hbi not in xl[1]
     if not good:
         # the same xor spelled with an index loop: `for i in 0..bytes.len() { block[i] ^= bytes[i] }` with bytes = counter.to_le_bytes()
-        le = Call("to_le_bytes", item)
+        le = Call("to_le_bytes", item if item is not None else (lambda e: True))
         for bi, si, st in b.iter_stmts():
             if st.kind != "assign" or st.rv is None or st.rv.kind != "bin" or st.rv.op != "BitXor" or bi not in lp[1]:
                 continue
